@@ -708,3 +708,262 @@ RECIPES += [
      '        index = [form.format(aveb[k + 1], aveb[k]) for k in range(len(aveb) - 1)]\n        columns = _getlabels(form, ampb)\n',
      'row labels with the two edges of each bin exchanged'),
 ]
+
+# ---- pass 5: own refactorings of kinds not met before (all verified bit-identical on a 600-case digest) and break siblings of the new constructs
+RECIPES += [
+    ("C10", 'neutral', [], FDE, '    Df4 = np.zeros(LF)\n    Df8 = np.zeros(LF)\n    Df12 = np.zeros(LF)\n    for j in range(LF):\n        Df4[j] = (BinAmps[j] ** b4).dot(BinCount[j])\n        Df8[j] = (BinAmps[j] ** b8).dot(BinCount[j])\n        Df12[j] = (BinAmps[j] ** b12).dot(BinCount[j])\n',
+     '    exps = (b4, b8, b12)\n    Df = np.zeros((len(exps), LF))\n    for j in range(LF):\n        for i, b in enumerate(exps):\n            Df[i, j] = (BinAmps[j] ** b).dot(BinCount[j])\n    Df4, Df8, Df12 = Df\n',
+     'pass 5: damage indicators in one (3 x LF) table filled per exponent, rows unpacked'),
+    ("C10", 'neutral', [], FDE, '    Df4 = np.zeros(LF)\n    Df8 = np.zeros(LF)\n    Df12 = np.zeros(LF)\n    for j in range(LF):\n        Df4[j] = (BinAmps[j] ** b4).dot(BinCount[j])\n        Df8[j] = (BinAmps[j] ** b8).dot(BinCount[j])\n        Df12[j] = (BinAmps[j] ** b12).dot(BinCount[j])\n',
+     '    Df = np.zeros((3, LF))\n    for j in range(LF):\n        Df[0, j] = (BinAmps[j] ** b4).dot(BinCount[j])\n        Df[1, j] = (BinAmps[j] ** b8).dot(BinCount[j])\n        Df[2, j] = (BinAmps[j] ** b12).dot(BinCount[j])\n    Df4 = Df[0]\n    Df8 = Df[1]\n    Df12 = Df[2]\n',
+     'pass 5: damage indicator table filled row by row with literal row numbers'),
+    ("C10", 'neutral', [], FDE, '    Df4 = np.zeros(LF)\n    Df8 = np.zeros(LF)\n    Df12 = np.zeros(LF)\n    for j in range(LF):\n        Df4[j] = (BinAmps[j] ** b4).dot(BinCount[j])\n        Df8[j] = (BinAmps[j] ** b8).dot(BinCount[j])\n        Df12[j] = (BinAmps[j] ** b12).dot(BinCount[j])\n',
+     '    Df = np.zeros((LF, 3))\n    for j in range(LF):\n        for i, b in enumerate((b4, b8, b12)):\n            Df[j, i] = (BinAmps[j] ** b).dot(BinCount[j])\n    Df4 = Df[:, 0]\n    Df8 = Df[:, 1]\n    Df12 = Df[:, 2]\n',
+     'pass 5: damage indicator table (LF x 3), columns taken as views'),
+    ("C10", 'neutral', [], FDE, '    di_sig = pd.DataFrame(\n        np.column_stack((Df4, Df8, Df12)), columns=["b=4", "b=8", "b=12"], index=index\n    )\n',
+     '    labels = ["b=4", "b=8", "b=12"]\n    di_sig = pd.DataFrame(dict(zip(labels, (Df4, Df8, Df12))), index=index)\n',
+     'pass 5: di_sig from dict(zip(labels, columns))'),
+    ("C10", 'neutral', [], FDE, '            for jj in range(nbins):\n                pv = amp >= BinAmps[j, jj]\n                Count[j, jj] = np.sum(count[pv])\n',
+     '            Count[j] = [np.sum(count[amp >= level]) for level in BinAmps[j]]\n',
+     'pass 5: cumulative counts of a row stored as one comprehension'),
+    ("C10", 'neutral', [], FDE, '            BinAmps[j] *= Amax[j]\n\n            # cumulative bin count:\n            for jj in range(nbins):\n                pv = amp >= BinAmps[j, jj]\n                Count[j, jj] = np.sum(count[pv])\n',
+     '            levels = BinAmps[j] * Amax[j]\n            BinAmps[j] = levels\n\n            # cumulative bin count:\n            for jj, level in enumerate(levels):\n                Count[j, jj] = count[amp >= level].sum()\n',
+     'pass 5: scaled levels computed into a local, stored back, and compared through the local'),
+    ("C10", 'neutral', [], FDE, 'BinCount = np.hstack((Count[:, :-1] - Count[:, 1:], Count[:, -1:]))',
+     'lower, upper, last = np.s_[:, :-1], np.s_[:, 1:], np.s_[:, -1:]\n    BinCount = np.hstack((Count[lower] - Count[upper], Count[last]))',
+     'pass 5: column blocks through np.s_ index objects'),
+    ("C10", 'neutral', [], FDE, 'BinCount = np.hstack((Count[:, :-1] - Count[:, 1:], Count[:, -1:]))',
+     'BinCount = np.hstack((Count[:, slice(None, -1)] - Count[:, slice(1, None)], Count[:, slice(-1, None)]))',
+     'pass 5: column blocks through slice() objects'),
+    ("C10", 'neutral', [], FDE, '    for j in range(LF):\n        pv = BinAmps[j] >= Amax[j] / 3  # ignore small amp cycles\n        if np.any(pv):\n            x = BinAmps[j, pv] ** 2\n            x2 = G2max[j]\n            y = np.log(Count[j, pv])\n            y1 = np.log(Count[j, 0])\n',
+     '    for j, (levels, counts, amax) in enumerate(zip(BinAmps, Count, Amax)):\n        pv = levels >= amax / 3  # ignore small amp cycles\n        if np.any(pv):\n            x = levels[pv] ** 2\n            x2 = G2max[j]\n            y = np.log(counts[pv])\n            y1 = np.log(counts[0])\n',
+     'pass 5: G2 loop over zip(BinAmps, Count, Amax) rows'),
+    ("C10", 'neutral', [], FDE, '        pv = BinAmps[j] >= Amax[j] / 3  # ignore small amp cycles\n        if np.any(pv):\n            x = BinAmps[j, pv] ** 2\n            x2 = G2max[j]\n            y = np.log(Count[j, pv])\n            y1 = np.log(Count[j, 0])\n            g1y = np.interp(x, [0, x2], [y1, 0])\n            tantheta = (y - g1y) / x\n            k = np.argmax(tantheta)\n            if tantheta[k] > 0:\n                # g2 line is higher than g1 line, so find BinAmps**2\n                # where log(count) = 0; ie, solve for x-intercept in\n                # y = m x + b; (x, y) pts are: (0, y1), (x[k], y[k]):\n                G2max[j] = x[k] * y1 / (y1 - y[k])\n',
+     '        pv = BinAmps[j] >= Amax[j] / 3  # ignore small amp cycles\n        if not pv.any():\n            continue\n        x = BinAmps[j, pv] ** 2\n        y = np.log(Count[j, pv])\n        y1 = np.log(Count[j, 0])\n        g1y = np.interp(x, [0, G2max[j]], [y1, 0])\n        tantheta = (y - g1y) / x\n        k = tantheta.argmax()\n        if tantheta[k] <= 0:\n            continue\n        G2max[j] = x[k] * y1 / (y1 - y[k])\n',
+     'pass 5: G2 loop with guard clauses (continue)'),
+    ("C10", 'neutral', [], CYC, '    return [form.format(i, j) for i, j in zip(bins[:-1], bins[1:])]',
+     '    return [form.format(bins[k], bins[k + 1]) for k in range(len(bins) - 1)]',
+     'pass 5: bin labels by index arithmetic'),
+    ("C10", 'neutral', [], CYC, '    return [form.format(i, j) for i, j in zip(bins[:-1], bins[1:])]',
+     '    return [form.format(*edges) for edges in zip(bins[:-1], bins[1:])]',
+     'pass 5: bin labels with form.format(*edges)'),
+    ("C10", 'neutral', [], CYC, '        table = pd.DataFrame(table, index=index, columns=columns)\n        table.columns.name = "Amp"\n        table.index.name = "Mean"\n',
+     '        table = pd.DataFrame(table, index=index, columns=columns)\n        table = table.rename_axis(index="Mean", columns="Amp")\n',
+     'pass 5: axis names through rename_axis'),
+    ("C10", 'neutral', [], CYC, '        index = _getlabels(form, aveb)\n        columns = _getlabels(form, ampb)\n',
+     '        label = form.format\n        index = [label(lo, hi) for lo, hi in zip(aveb[:-1], aveb[1:])]\n        columns = [label(lo, hi) for lo, hi in zip(ampb[:-1], ampb[1:])]\n',
+     'pass 5: labels built in binify with a bound form.format'),
+    ("C10", 'neutral', [], FDE, '    return SimpleNamespace(\n        freq=freq,\n        psd=Gpsd,\n        peakamp=Gmax,\n        binamps=BinAmps,\n        count=Count,\n        bincount=BinCount,\n        var=Var,\n        srs=SRSmax,\n        parallel=parallel,\n        ncpu=ncpu,\n        di_sig=di_sig,\n        di_test=di_test,\n        var_test=var_test,\n        resp=resp,\n        sig=sig,\n        sr=sr,\n    )\n',
+     '    fields = dict(\n        freq=freq,\n        psd=Gpsd,\n        peakamp=Gmax,\n        binamps=BinAmps,\n        count=Count,\n        bincount=BinCount,\n        var=Var,\n        srs=SRSmax,\n        parallel=parallel,\n        ncpu=ncpu,\n        di_sig=di_sig,\n        di_test=di_test,\n        var_test=var_test,\n        resp=resp,\n        sig=sig,\n        sr=sr,\n    )\n    return SimpleNamespace(**fields)\n',
+     'pass 5: result namespace from a dict of fields'),
+    ("C10", 'neutral', [], FDE, '    return SimpleNamespace(\n        freq=freq,\n        psd=Gpsd,\n        peakamp=Gmax,\n        binamps=BinAmps,\n        count=Count,\n        bincount=BinCount,\n        var=Var,\n        srs=SRSmax,\n        parallel=parallel,\n        ncpu=ncpu,\n        di_sig=di_sig,\n        di_test=di_test,\n        var_test=var_test,\n        resp=resp,\n        sig=sig,\n        sr=sr,\n    )\n',
+     '    fields = {"freq": freq, "psd": Gpsd, "peakamp": Gmax, "binamps": BinAmps, "count": Count}\n    fields.update(bincount=BinCount, var=Var, srs=SRSmax, parallel=parallel, ncpu=ncpu)\n    fields["di_sig"] = di_sig\n    fields["di_test"] = di_test\n    fields["var_test"] = var_test\n    return SimpleNamespace(resp=resp, sig=sig, sr=sr, **fields)\n',
+     'pass 5: result fields collected in a dict (literal, update, item stores)'),
+    ("C10", 'neutral', [], FDE, '    Gpsd = pd.DataFrame(dct, columns=columns, index=freq)\n    Gpsd.index.name = "Frequency"\n    index = Gpsd.index\n',
+     '    index = pd.Index(freq, name="Frequency")\n    Gpsd = pd.DataFrame(dct, columns=columns, index=index)\n',
+     'pass 5: frequency index made once with pd.Index(freq, name=...)'),
+    ("C10", 'neutral', [], FDE, '        for j, wn in enumerate(Wn):\n            if verbose:\n                print(f"Processing frequency {wn / 2 / pi:8.2f} Hz", end="\\r")\n            b, a = coeffunc(Q, dT, wn)\n            resphist = signal.lfilter(b, a, sig)\n            SRSmax[j] = abs(resphist).max()\n            Var[j] = np.var(resphist, ddof=1)\n\n            # use rainflow to count cycles:\n            ind = cyclecount.findap(resphist)\n            rf = cyclecount.rainflow(resphist[ind])\n\n            amp = rf["amp"]\n            count = rf["count"]\n            Amax[j] = amp.max()\n            BinAmps[j] *= Amax[j]\n\n            # cumulative bin count:\n            for jj in range(nbins):\n                pv = amp >= BinAmps[j, jj]\n                Count[j, jj] = np.sum(count[pv])\n',
+     '        def process(j, wn):\n            if verbose:\n                print(f"Processing frequency {wn / 2 / pi:8.2f} Hz", end="\\r")\n            b, a = coeffunc(Q, dT, wn)\n            resphist = signal.lfilter(b, a, sig)\n            SRSmax[j] = abs(resphist).max()\n            Var[j] = np.var(resphist, ddof=1)\n            ind = cyclecount.findap(resphist)\n            rf = cyclecount.rainflow(resphist[ind])\n            amp = rf["amp"]\n            count = rf["count"]\n            Amax[j] = amp.max()\n            BinAmps[j] *= Amax[j]\n            for jj in range(nbins):\n                Count[j, jj] = np.sum(count[amp >= BinAmps[j, jj]])\n\n        for j, wn in enumerate(Wn):\n            process(j, wn)\n',
+     'pass 5: per-frequency work in a nested function called from the loop'),
+    ("C10", 'neutral', [], CYC, '        if check_bounds:\n            if right:\n                if mn <= bb[0] or mx > bb[-1]:\n                    out_of_bounds = True\n                else:\n                    out_of_bounds = False\n            else:\n                if mn < bb[0] or mx >= bb[-1]:\n                    out_of_bounds = True\n                else:\n                    out_of_bounds = False\n',
+     '        if check_bounds:\n            first, last = bb[0], bb[-1]\n            if right:\n                out_of_bounds = bool(mn <= first or mx > last)\n            else:\n                out_of_bounds = bool(mn < first or mx >= last)\n',
+     'pass 5: bounds verdict as bool(...) on named first / last edges'),
+    ("C10", 'neutral', [], CYC, '        if check_bounds:\n            if right:\n                if mn <= bb[0] or mx > bb[-1]:\n                    out_of_bounds = True\n                else:\n                    out_of_bounds = False\n            else:\n                if mn < bb[0] or mx >= bb[-1]:\n                    out_of_bounds = True\n                else:\n                    out_of_bounds = False\n',
+     '        if check_bounds:\n            lo, hi = bb[0], bb[-1]\n            out_of_bounds = (mn <= lo or mx > hi) if right else (mn < lo or mx >= hi)\n            out_of_bounds = bool(out_of_bounds)\n',
+     'pass 5: bounds verdict chosen by a conditional expression'),
+    ("C10", 'neutral', [], CYC, '        if check_bounds:\n            if right:\n                if mn <= bb[0] or mx > bb[-1]:\n                    out_of_bounds = True\n                else:\n                    out_of_bounds = False\n            else:\n                if mn < bb[0] or mx >= bb[-1]:\n                    out_of_bounds = True\n                else:\n                    out_of_bounds = False\n',
+     '        if check_bounds:\n            if right:\n                inside = bb[0] < mn and mx <= bb[-1]\n            else:\n                inside = bb[0] <= mn and mx < bb[-1]\n            out_of_bounds = not inside\n',
+     "pass 5: bounds verdict as the negation of an 'inside' test"),
+    ("C10", 'neutral', [], CYC, '        if right:\n            bb[0] -= p\n        else:\n            bb[-1] += p\n        out_of_bounds = False\n',
+     '        k = 0 if right else -1\n        bb[k] += -p if right else p\n        out_of_bounds = False\n',
+     'pass 5: scalar bins: the widened edge chosen by an index'),
+    ("C10", 'neutral', [], CYC, '        if right:\n            bb[0] -= p\n        else:\n            bb[-1] += p\n        out_of_bounds = False\n',
+     '        if right:\n            bb[0] = bb[0] - p\n        else:\n            bb[-1] = bb[-1] + p\n        out_of_bounds = False\n',
+     'pass 5: scalar bins: edge widened by plain assignment'),
+    ("C10", 'neutral', [], CYC, '    if mx < mn:\n        mx, mn = mn, mx\n    elif mx == mn:\n        mx = mx + 0.5\n        mn = mn - 0.5\n',
+     '    if mx == mn:\n        mx, mn = mx + 0.5, mn - 0.5\n    elif mn > mx:\n        mn, mx = mx, mn\n',
+     'pass 5: mx / mn normalisation with the tests exchanged'),
+    ("C10", 'neutral', [], CYC, '    if ensure_boundaries:\n        for i in range(len(cycles)):\n            bim = bin_indices_mean[i]\n            bir = bin_indices_range[i]\n            if (0 <= bim < num_bins_mean) and (0 <= bir < num_bins_range):\n                markov_matrix[bim, bir] += cycles[i, 2]\n    else:\n        for i in range(len(cycles)):\n            markov_matrix[bin_indices_mean[i], bin_indices_range[i]] += cycles[i, 2]\n',
+     '    for i in range(len(cycles)):\n        bim = bin_indices_mean[i]\n        bir = bin_indices_range[i]\n        if ensure_boundaries and not (\n            (0 <= bim < num_bins_mean) and (0 <= bir < num_bins_range)\n        ):\n            continue\n        markov_matrix[bim, bir] += cycles[i, 2]\n',
+     'pass 5: _binify: one loop, guard skipped when boundaries are not ensured'),
+    ("C10", 'neutral', [], CYC, '    if ensure_boundaries:\n        for i in range(len(cycles)):\n            bim = bin_indices_mean[i]\n            bir = bin_indices_range[i]\n            if (0 <= bim < num_bins_mean) and (0 <= bir < num_bins_range):\n                markov_matrix[bim, bir] += cycles[i, 2]\n    else:\n        for i in range(len(cycles)):\n            markov_matrix[bin_indices_mean[i], bin_indices_range[i]] += cycles[i, 2]\n',
+     '    if ensure_boundaries:\n        for i, (bim, bir) in enumerate(zip(bin_indices_mean, bin_indices_range)):\n            if (0 <= bim < num_bins_mean) and (0 <= bir < num_bins_range):\n                markov_matrix[bim, bir] += cycles[i, 2]\n    else:\n        for i, (bim, bir) in enumerate(zip(bin_indices_mean, bin_indices_range)):\n            markov_matrix[bim, bir] += cycles[i, 2]\n',
+     'pass 5: _binify: loops over enumerate(zip(indices))'),
+    ("C10", 'neutral', [], CYC, '    if ensure_boundaries:\n        for i in range(len(cycles)):\n            bim = bin_indices_mean[i]\n            bir = bin_indices_range[i]\n            if (0 <= bim < num_bins_mean) and (0 <= bir < num_bins_range):\n                markov_matrix[bim, bir] += cycles[i, 2]\n    else:\n        for i in range(len(cycles)):\n            markov_matrix[bin_indices_mean[i], bin_indices_range[i]] += cycles[i, 2]\n',
+     '    counts = cycles[:, 2]\n    if ensure_boundaries:\n        for bim, bir, cnt in zip(bin_indices_mean, bin_indices_range, counts):\n            if (0 <= bim < num_bins_mean) and (0 <= bir < num_bins_range):\n                markov_matrix[bim, bir] += cnt\n    else:\n        for bim, bir, cnt in zip(bin_indices_mean, bin_indices_range, counts):\n            markov_matrix[bim, bir] += cnt\n',
+     'pass 5: _binify: counts column taken as a view and zipped'),
+    ("C10", 'neutral', [], CYC, '            if (0 <= bim < num_bins_mean) and (0 <= bir < num_bins_range):\n',
+     '            if bim in range(num_bins_mean) and bir in range(num_bins_range):\n',
+     'pass 5: _binify: index guard written with `in range(n)`'),
+    ("C10", 'neutral', [], CYC, '    if check_bounds:\n        ampb, out_amp = ampb\n        aveb, out_ave = aveb\n        out = out_amp or out_ave\n    else:\n        out = False\n',
+     '    if check_bounds:\n        (ampb, out_amp), (aveb, out_ave) = ampb, aveb\n        out = any((out_amp, out_ave))\n    else:\n        out = False\n',
+     'pass 5: binify: nested unpacking and any(...)'),
+    ("C10", 'neutral', [], CYC, '    ampb = getbins(ampbins, *maxmin(rf[:, 0]), right, check_bounds)\n    aveb = getbins(meanbins, *maxmin(rf[:, 1]), right, check_bounds)\n',
+     '    amps, means = rf[:, 0], rf[:, 1]\n    ampb = getbins(ampbins, amps.max(), amps.min(), right, check_bounds)\n    aveb = getbins(meanbins, means.max(), means.min(), right, check_bounds)\n',
+     'pass 5: binify: extremes through the array methods'),
+    ("C10", 'neutral', [], CYC, '        f = "{:." + str(precision) + "f}"\n        f = f + ", " + f\n        if right:\n            form = "(" + f + "]"\n        else:\n            form = "[" + f + ")"\n',
+     '        f = "{:.%df}" % precision\n        opening, closing = ("(", "]") if right else ("[", ")")\n        form = opening + f + ", " + f + closing\n',
+     'pass 5: binify: bracket characters chosen by a conditional expression'),
+    ("C10", 'neutral', [], CYC, '    rf = rainflow(sig[findap(sig)], use_pandas=False)\n',
+     '    reversals = findap(sig)\n    peaks = sig[reversals]\n    rf = rainflow(peaks, use_pandas=False)\n',
+     'pass 5: sigcount: reversals through temporaries'),
+    ("C10", 'neutral', [], CYC, '        if np.all(u):\n            yu = y\n            allu = True\n        else:\n            yu = y[u]\n            # [ 1,  2,  3,  4, -2]\n            allu = False\n',
+     '        allu = bool(u.all())\n        yu = y if allu else y[u]\n',
+     'pass 5: findap: all-unique flag and selection by conditional expression'),
+    ("C10", 'neutral', [], CYC, '        pv = np.ones(yu.size, bool)\n        pv[1:-1] = np.abs(np.diff(s)) == 2\n        if yu.size > 2:\n            pv[-1] = yu[-1] != yu[-2]\n',
+     '        n = yu.size\n        pv = np.ones(n, dtype=bool)\n        pv[1 : n - 1] = np.abs(s[1:] - s[:-1]) == 2\n        if n > 2:\n            pv[n - 1] = yu[n - 1] != yu[n - 2]\n',
+     'pass 5: findap: size in a local, explicit slice bounds'),
+    ("C10", 'neutral', [], LOC, '    m = np.diff(y)\n    stol = abs(tol * abs(m).max())\n    pv = np.hstack((True, abs(m) > stol))\n    return pv\n',
+     '    steps = np.abs(np.diff(y))\n    threshold = abs(tol * steps.max())\n    return np.concatenate(([True], steps > threshold))\n',
+     'pass 5: find_unique: absolute steps once, concatenate'),
+    ("C10", 'neutral', [], LOC, '    pv = np.hstack((True, abs(m) > stol))\n    return pv\n',
+     '    pv = np.empty(y.size, bool)\n    pv[0] = True\n    pv[1:] = abs(m) > stol\n    return pv\n',
+     'pass 5: find_unique: mask allocated and stored in two pieces'),
+    ("C10", 'neutral', [], FDE, '    amp = rf["amp"]\n    count = rf["count"]\n    ASV_[0, j] = amp.max()\n    BinAmps_[j] *= ASV_[0, j]\n\n    # cumulative bin count:\n    for jj in range(BinAmps_.shape[1]):\n        pv = amp >= BinAmps_[j, jj]\n        Count_[j, jj] = np.sum(count[pv])\n',
+     '    amp = rf["amp"]\n    count = rf["count"]\n    amax = amp.max()\n    ASV_[0, j] = amax\n    levels = BinAmps_[j]\n    levels *= amax\n\n    # cumulative bin count:\n    counts = Count_[j]\n    for jj, level in enumerate(levels):\n        counts[jj] = np.sum(count[amp >= level])\n',
+     'pass 5: _dofde: row views for levels and counts'),
+    ("C10", 'neutral', [], FDE, '    amp = rf["amp"]\n    count = rf["count"]\n    ASV_[0, j] = amp.max()\n    BinAmps_[j] *= ASV_[0, j]\n\n    # cumulative bin count:\n    for jj in range(BinAmps_.shape[1]):\n        pv = amp >= BinAmps_[j, jj]\n        Count_[j, jj] = np.sum(count[pv])\n',
+     '    amp = rf["amp"]\n    count = rf["count"]\n    ASV_[0, j] = amp.max()\n    BinAmps_[j] *= ASV_[0, j]\n\n    # cumulative bin count:\n    Count_[j] = [np.sum(count[amp >= level]) for level in BinAmps_[j]]\n',
+     'pass 5: _dofde: counts of the row as one comprehension'),
+    ("C10", 'neutral', [], FDE, '        Dt4 = 2 * N0\n        sig2_4 = np.sqrt(Df4 / Dt4)\n        G4 = sig2_4 * ((4 * pi / Q) * freq)\n\n        Dt8 = 24 * N0\n        sig2_8 = (Df8 / Dt8) ** (1 / 4)\n        G8 = sig2_8 * ((4 * pi / Q) * freq)\n\n        Dt12 = 720 * N0\n        sig2_12 = (Df12 / Dt12) ** (1 / 6)\n        G12 = sig2_12 * ((4 * pi / Q) * freq)\n',
+     '        var2psd = (4 * pi / Q) * freq\n        Dt4, Dt8, Dt12 = 2 * N0, 24 * N0, 720 * N0\n        sig2_4 = (Df4 / Dt4) ** 0.5\n        sig2_8 = (Df8 / Dt8) ** 0.25\n        sig2_12 = (Df12 / Dt12) ** (1 / 6)\n        G4, G8, G12 = (s2 * var2psd for s2 in (sig2_4, sig2_8, sig2_12))\n',
+     'pass 5: pvelo arm: shared factor, powers as floats, generator unpacking'),
+    ("C10", 'neutral', [], FDE, '        Dt4 = 2 * N0\n        sig2_4 = np.sqrt(Df4 / Dt4)\n        G4 = sig2_4 * ((4 * pi / Q) * freq)\n\n        Dt8 = 24 * N0\n        sig2_8 = (Df8 / Dt8) ** (1 / 4)\n        G8 = sig2_8 * ((4 * pi / Q) * freq)\n\n        Dt12 = 720 * N0\n        sig2_12 = (Df12 / Dt12) ** (1 / 6)\n        G12 = sig2_12 * ((4 * pi / Q) * freq)\n',
+     '        Dt, sig2, G = {}, {}, {}\n        for b, fact, Dfb in ((4, 2, Df4), (8, 24, Df8), (12, 720, Df12)):\n            Dt[b] = fact * N0\n            sig2[b] = (Dfb / Dt[b]) ** (2 / b)\n            G[b] = sig2[b] * ((4 * pi / Q) * freq)\n        Dt4, Dt8, Dt12 = Dt[4], Dt[8], Dt[12]\n        sig2_4, sig2_8, sig2_12 = sig2[4], sig2[8], sig2[12]\n        G4, G8, G12 = G[4], G[8], G[12]\n',
+     'pass 5: pvelo arm: Dt / sig2 / G tables filled in a loop over (b, factor, Df)'),
+    ("C10", 'neutral', [], FDE, '    if resp == "absacce":\n        G1 = Amax**2',
+     '    is_pvelo = resp != "absacce"\n    if not is_pvelo:\n        G1 = Amax**2',
+     'pass 5: response arm selected by a negated flag'),
+    ("C10", 'neutral', [], FDE, '        Amax = np.zeros(LF)\n        SRSmax = np.zeros(LF)\n        Var = np.zeros(LF)\n        BinAmps = np.zeros((LF, nbins))\n        BinAmps += np.arange(nbins, dtype=float) / nbins\n        Count = np.zeros((LF, nbins))\n',
+     '        Amax, SRSmax, Var = np.zeros((3, LF))\n        BinAmps = np.tile(np.arange(nbins, dtype=float) / nbins, (LF, 1))\n        Count = np.zeros_like(BinAmps)\n',
+     'pass 5: serial arrays from one (3, LF) block, levels by np.tile'),
+    ("C10", 'neutral', [], FDE, '        Amax = np.zeros(LF)\n        SRSmax = np.zeros(LF)\n        Var = np.zeros(LF)\n',
+     '        Amax, SRSmax, Var = (np.zeros(LF) for _ in range(3))\n',
+     'pass 5: serial arrays from a generator of allocations'),
+    ("C10", 'neutral', [], FDE, '        BinAmps = np.zeros((LF, nbins))\n        BinAmps += np.arange(nbins, dtype=float) / nbins\n',
+     '        BinAmps = np.empty((LF, nbins))\n        BinAmps[:] = np.arange(nbins, dtype=float) / nbins\n',
+     'pass 5: levels allocated with np.empty and broadcast-filled'),
+    ("C10", 'break', ['C10-R7'], FDE, '            for jj in range(nbins):\n                pv = amp >= BinAmps[j, jj]\n                Count[j, jj] = np.sum(count[pv])\n',
+     '            for jj in range(nbins):\n                pv = amp >= BinAmps[j, jj] * Amax[j]\n                Count[j, jj] = np.sum(count[pv])\n',
+     'pass 5: levels scaled twice in the comparison'),
+    ("C10", 'break', ['C10-R3'], FDE, '            BinAmps[j] *= Amax[j]\n\n            # cumulative bin count:\n            for jj in range(nbins):\n                pv = amp >= BinAmps[j, jj]\n                Count[j, jj] = np.sum(count[pv])\n',
+     '            levels = BinAmps[j] * Amax[j]\n            BinAmps[j] = levels\n\n            # cumulative bin count:\n            for jj, level in enumerate(levels):\n                Count[j, jj] = count[amp > level].sum()\n',
+     'pass 5: levels through a local, strict comparison'),
+    ("C10", 'break', ['C10-R1', 'C10-R7'], FDE, '    Df4 = np.zeros(LF)\n    Df8 = np.zeros(LF)\n    Df12 = np.zeros(LF)\n    for j in range(LF):\n        Df4[j] = (BinAmps[j] ** b4).dot(BinCount[j])\n        Df8[j] = (BinAmps[j] ** b8).dot(BinCount[j])\n        Df12[j] = (BinAmps[j] ** b12).dot(BinCount[j])\n',
+     '    exps = (b4, b12, b8)\n    Df = np.zeros((len(exps), LF))\n    for j in range(LF):\n        for i, b in enumerate(exps):\n            Df[i, j] = (BinAmps[j] ** b).dot(BinCount[j])\n    Df4, Df8, Df12 = Df\n',
+     'pass 5: indicator table rows in the order 4, 12, 8'),
+    ("C10", 'break', ['C10-R1', 'C10-R7'], FDE, '    Df4 = np.zeros(LF)\n    Df8 = np.zeros(LF)\n    Df12 = np.zeros(LF)\n    for j in range(LF):\n        Df4[j] = (BinAmps[j] ** b4).dot(BinCount[j])\n        Df8[j] = (BinAmps[j] ** b8).dot(BinCount[j])\n        Df12[j] = (BinAmps[j] ** b12).dot(BinCount[j])\n',
+     '    Df = np.zeros((LF, 3))\n    for j in range(LF):\n        for i, b in enumerate((b4, b8, b12)):\n            Df[j, i] = (BinAmps[j] ** b).dot(BinCount[j])\n    Df4 = Df[:, 1]\n    Df8 = Df[:, 0]\n    Df12 = Df[:, 2]\n',
+     'pass 5: indicator table columns 0 and 1 exchanged'),
+    ("C10", 'break', ['C10-R1'], FDE, '    di_sig = pd.DataFrame(\n        np.column_stack((Df4, Df8, Df12)), columns=["b=4", "b=8", "b=12"], index=index\n    )\n',
+     '    blabels = [f"b={b}" for b in (b4, b12, b8)]\n    di_sig = pd.DataFrame(np.column_stack((Df4, Df8, Df12)), columns=blabels, index=index)\n',
+     'pass 5: labels generated in the order 4, 12, 8'),
+    ("C10", 'break', ['C10-R1'], FDE, '    di_sig = pd.DataFrame(\n        np.column_stack((Df4, Df8, Df12)), columns=["b=4", "b=8", "b=12"], index=index\n    )\n',
+     '    labels = ["b=4", "b=8", "b=12"]\n    di_sig = pd.DataFrame(dict(zip(labels, (Df4, Df12, Df8))), columns=labels, index=index)\n',
+     'pass 5: dict(zip(labels, columns)) with two columns exchanged'),
+    ("C10", 'break', ['C10-R1', 'C10-R7'], FDE, '        Dt4 = 2 * N0\n        sig2_4 = np.sqrt(Df4 / Dt4)\n        G4 = sig2_4 * ((4 * pi / Q) * freq)\n\n        Dt8 = 24 * N0\n        sig2_8 = (Df8 / Dt8) ** (1 / 4)\n        G8 = sig2_8 * ((4 * pi / Q) * freq)\n\n        Dt12 = 720 * N0\n        sig2_12 = (Df12 / Dt12) ** (1 / 6)\n        G12 = sig2_12 * ((4 * pi / Q) * freq)\n',
+     '        Dt, sig2, G = {}, {}, {}\n        for b, fact, Dfb in ((4, 2, Df4), (8, 24, Df8), (12, 720, Df12)):\n            Dt[b] = fact * N0\n            sig2[b] = (Dfb / Dt[b]) ** (1 / b)\n            G[b] = sig2[b] * ((4 * pi / Q) * freq)\n        Dt4, Dt8, Dt12 = Dt[4], Dt[8], Dt[12]\n        sig2_4, sig2_8, sig2_12 = sig2[4], sig2[8], sig2[12]\n        G4, G8, G12 = G[4], G[8], G[12]\n',
+     'pass 5: pvelo table loop with exponent 1/b'),
+    ("C10", 'break', ['C10-R5'], CYC, '    if ensure_boundaries:\n        for i in range(len(cycles)):\n            bim = bin_indices_mean[i]\n            bir = bin_indices_range[i]\n            if (0 <= bim < num_bins_mean) and (0 <= bir < num_bins_range):\n                markov_matrix[bim, bir] += cycles[i, 2]\n    else:\n        for i in range(len(cycles)):\n            markov_matrix[bin_indices_mean[i], bin_indices_range[i]] += cycles[i, 2]\n',
+     '    counts = cycles[:, 1]\n    if ensure_boundaries:\n        for bim, bir, cnt in zip(bin_indices_mean, bin_indices_range, counts):\n            if (0 <= bim < num_bins_mean) and (0 <= bir < num_bins_range):\n                markov_matrix[bim, bir] += cnt\n    else:\n        for bim, bir, cnt in zip(bin_indices_mean, bin_indices_range, counts):\n            markov_matrix[bim, bir] += cnt\n',
+     'pass 5: _binify adds the mean column'),
+    ("C10", 'break', ['C10-R5'], CYC, '            if (0 <= bim < num_bins_mean) and (0 <= bir < num_bins_range):\n',
+     '            if bim in range(num_bins_mean + 1) and bir in range(num_bins_range):\n',
+     'pass 5: _binify guard `in range(n + 1)`'),
+    ("C10", 'break', ['C10-R5'], CYC, '        f = "{:." + str(precision) + "f}"\n        f = f + ", " + f\n        if right:\n            form = "(" + f + "]"\n        else:\n            form = "[" + f + ")"\n',
+     '        f = "{:.%df}" % precision\n        opening, closing = ("[", ")") if right else ("(", "]")\n        form = opening + f + ", " + f + closing\n',
+     'pass 5: bracket characters exchanged'),
+    ("C10", 'break', ['C10-R6'], LOC, '    pv = np.hstack((True, abs(m) > stol))\n    return pv\n',
+     '    pv = np.empty(y.size, bool)\n    pv[0] = True\n    pv[1:] = abs(m) >= stol\n    return pv\n',
+     'pass 5: two-piece mask with >='),
+    ("C10", 'break', ['C10-R5'], CYC, '        if check_bounds:\n            if right:\n                if mn <= bb[0] or mx > bb[-1]:\n                    out_of_bounds = True\n                else:\n                    out_of_bounds = False\n            else:\n                if mn < bb[0] or mx >= bb[-1]:\n                    out_of_bounds = True\n                else:\n                    out_of_bounds = False\n',
+     '        if check_bounds:\n            first, last = bb[0], bb[-1]\n            if right:\n                out_of_bounds = bool(mn < first or mx > last)\n            else:\n                out_of_bounds = bool(mn < first or mx >= last)\n',
+     'pass 5: first-edge test strict'),
+    ("C10", 'break', ['C10-R1'], FDE, '        di_sig=di_sig,\n        di_test=di_test,\n',
+     '        di_sig=di_test,\n        di_test=di_sig,\n',
+     'pass 5: di_sig and di_test exchanged in the result'),
+]
+
+RECIPES += [
+    ("C10", 'neutral', [], FDE, '            rf = cyclecount.rainflow(resphist[ind])\n\n            amp = rf["amp"]\n            count = rf["count"]\n',
+     '            rf = cyclecount.rainflow(resphist[ind], use_pandas=False)\n\n            amp, _, count = rf.T\n',
+     'pass 5: cycle table as ndarray, columns unpacked from its transpose'),
+    ("C10", 'neutral', [], FDE, '            amp = rf["amp"]\n            count = rf["count"]\n            Amax[j] = amp.max()',
+     '            amp = rf["amp"].to_numpy()\n            count = rf["count"].to_numpy()\n            Amax[j] = amp.max()',
+     'pass 5: cycle columns through .to_numpy()'),
+    ("C10", 'neutral', [], FDE, '    Gmax = pd.DataFrame(np.vstack((Amax, G2max, Gmax)).T, columns=columns, index=index)\n',
+     '    Gmax = pd.DataFrame(np.column_stack((Amax, G2max, *Gmax)), columns=columns, index=index)\n',
+     'pass 5: peak table from column_stack with the rows of Gmax starred in'),
+    ("C10", 'neutral', [], FDE, '    G2max = np.sqrt(G2max)\n    Gmax = pd.DataFrame(np.vstack((Amax, G2max, Gmax)).T, columns=columns, index=index)\n',
+     '    G2peak = np.sqrt(G2max)\n    peaks = np.vstack((Amax, G2peak, Gmax))\n    Gmax = pd.DataFrame(peaks.T, columns=columns, index=index)\n',
+     'pass 5: square root of G2max under a name of its own, peaks stacked in a local'),
+    ("C10", 'neutral', [], CYC, '        pv[1:-1] = np.abs(np.diff(s)) == 2\n        if yu.size > 2:\n            pv[-1] = yu[-1] != yu[-2]\n',
+     '        if yu.size > 2:\n            pv[1:-1] = np.abs(np.diff(s)) == 2\n            pv[-1] = yu[-1] != yu[-2]\n',
+     'pass 5: findap: interior and end-point stores under one size test'),
+    ("C10", 'neutral', [], CYC, '        while i < y.size:\n            if np.abs(y[i] - prv) > stol:\n                break\n            i += 1\n',
+     '        while i < y.size and not np.abs(y[i] - prv) > stol:\n            i += 1\n',
+     'pass 5: loop variant: flat start skipped by a compound while condition'),
+    ("C10", 'neutral', [], CYC, '            if y[1] == y[0]:\n                return np.array([True, False])\n            return np.array([True, True])\n',
+     '            return np.array([True, bool(y[1] != y[0])])\n',
+     'pass 5: loop variant: two-sample case as one array display'),
+    ("C10", 'neutral', [], CYC, '        if cur > prv:\n            mountain = True  # find mountain peak\n        else:\n            mountain = False  # find valley floor\n',
+     '        mountain = bool(cur > prv)  # True: find mountain peak; False: valley floor\n',
+     'pass 5: loop variant: direction flag from the comparison itself'),
+    ("C10", 'neutral', [], FDE, '            Var[j] = np.var(resphist, ddof=1)\n',
+     '            Var[j] = resphist.var(ddof=1)\n',
+     'pass 5: variance through the array method'),
+    ("C10", 'neutral', [], FDE, '        for j, wn in enumerate(Wn):\n            if verbose:',
+     '        for j in range(LF):\n            wn = Wn[j]\n            if verbose:',
+     'pass 5: frequency loop over range(LF)'),
+    ("C10", 'neutral', [], FDE, '            for jj in range(nbins):\n                pv = amp >= BinAmps[j, jj]\n                Count[j, jj] = np.sum(count[pv])\n',
+     '            Count[j] = np.fromiter((count[amp >= level].sum() for level in BinAmps[j]), dtype=float, count=nbins)\n',
+     'pass 5: cumulative counts of a row through np.fromiter'),
+    ("C10", 'neutral', [], FDE, '            for jj in range(nbins):\n                pv = amp >= BinAmps[j, jj]\n                Count[j, jj] = np.sum(count[pv])\n',
+     '            Count[j, :] = np.array([np.sum(count[amp >= BinAmps[j, jj]]) for jj in range(nbins)])\n',
+     'pass 5: cumulative counts of a row as np.array of a comprehension stored into Count[j, :]'),
+    ("C10", 'neutral', [], FDE, 'BinCount = np.hstack((Count[:, :-1] - Count[:, 1:], Count[:, -1:]))',
+     'BinCount = Count.copy()\n    BinCount[:, :-1] -= Count[:, 1:]',
+     'pass 5: BinCount as a copy of Count with the shifted columns subtracted in place'),
+    ("C10", 'neutral', [], FDE, '    N0 = freq * T0\n    lnN0 = np.log(N0)\n',
+     '    ncycles = freq * T0\n    N0 = ncycles\n    lnN0 = np.log(ncycles)\n',
+     'pass 5: cycle number under a second name'),
+    ("C10", 'neutral', [], FDE, '        Abar3 = Abar2 * Abar\n        Abar4 = Abar2 * Abar2\n',
+     '        Abar3, Abar4 = Abar2 * Abar, Abar2 * Abar2\n',
+     'pass 5: powers of Abar bound by tuple assignment'),
+    ("C10", 'neutral', [], FDE, '        Dt4 *= 4  # 2 ** (b/2)\n        Dt8 *= 16\n        Dt12 *= 64\n',
+     '        for Dt, scale in ((Dt4, 4), (Dt8, 16), (Dt12, 64)):\n            Dt *= scale  # 2 ** (b/2), in place\n',
+     'pass 5: pvelo test indicators scaled in place in a loop over (array, factor)'),
+    ("C10", 'neutral', [], FDE, '        Dt4 *= 4  # 2 ** (b/2)\n        Dt8 *= 16\n        Dt12 *= 64\n',
+     '        Dt4, Dt8, Dt12 = Dt4 * 4, Dt8 * 16, Dt12 * 64  # 2 ** (b/2)\n',
+     'pass 5: pvelo test indicators re-bound scaled'),
+    ("C10", 'neutral', [], CYC, '        bins = int(bins[0])\n        bb = np.linspace(mn, mx, bins + 1)\n',
+     '        nbins = int(bins[0])\n        bb = np.linspace(mn, mx, num=nbins + 1)\n',
+     'pass 5: getbins: bin count under a name of its own, linspace with num='),
+    ("C10", 'neutral', [], CYC, '    if retbins:\n        return table, ampb, aveb\n\n    return table\n',
+     '    return (table, ampb, aveb) if retbins else table\n',
+     'pass 5: binify: return chosen by a conditional expression'),
+    ("C10", 'break', ['C10-R3', 'C10-R7'], FDE, '            rf = cyclecount.rainflow(resphist[ind])\n\n            amp = rf["amp"]\n            count = rf["count"]\n',
+     '            rf = cyclecount.rainflow(resphist[ind], use_pandas=False)\n\n            amp, count, _ = rf.T\n',
+     'pass 5: columns of the transposed cycle table unpacked in the wrong order'),
+    ("C10", 'break', ['C10-R6'], CYC, '        pv[1:-1] = np.abs(np.diff(s)) == 2\n        if yu.size > 2:\n            pv[-1] = yu[-1] != yu[-2]\n',
+     '        if yu.size > 3:\n            pv[1:-1] = np.abs(np.diff(s)) == 2\n            pv[-1] = yu[-1] != yu[-2]\n',
+     'pass 5: interior store skipped for three retained samples'),
+    ("C10", 'break', ['C10-R1'], FDE, '    Gmax = pd.DataFrame(np.vstack((Amax, G2max, Gmax)).T, columns=columns, index=index)\n',
+     '    Gmax = pd.DataFrame(np.column_stack((G2max, Amax, *Gmax)), columns=columns, index=index)\n',
+     'pass 5: peak table: G1 and G2 peak columns exchanged'),
+]
+
+RECIPES += [
+    ("C10", 'neutral', [], FDE, '            b, a = coeffunc(Q, dT, wn)\n            resphist = signal.lfilter(b, a, sig)\n            SRSmax[j] = abs(resphist).max()\n            Var[j] = np.var(resphist, ddof=1)\n\n            # use rainflow to count cycles:\n            ind = cyclecount.findap(resphist)\n            rf = cyclecount.rainflow(resphist[ind])\n\n            amp = rf["amp"]\n            count = rf["count"]\n            Amax[j] = amp.max()\n            BinAmps[j] *= Amax[j]\n\n            # cumulative bin count:\n            for jj in range(nbins):\n                pv = amp >= BinAmps[j, jj]\n                Count[j, jj] = np.sum(count[pv])\n',
+     '            b, a = coeffunc(Q, dT, wn)\n            resphist = signal.lfilter(b, a, sig)\n            SRSmax[j] = abs(resphist).max()\n            Var[j] = np.var(resphist, ddof=1)\n\n            # use rainflow to count cycles:\n            rf = cyclecount.rainflow(resphist[cyclecount.findap(resphist)])\n            amp, count = rf["amp"], rf["count"]\n\n            def ncycles_at_or_above(level):\n                return np.sum(count[amp >= level])\n\n            Amax[j] = amp.max()\n            BinAmps[j] *= Amax[j]\n\n            # cumulative bin count:\n            Count[j] = [ncycles_at_or_above(level) for level in BinAmps[j]]\n',
+     'pass 5: cumulative count through a nested function reading amp / count of the enclosing loop body'),
+    ("C10", 'neutral', [], FDE, '            for jj in range(nbins):\n                pv = amp >= BinAmps[j, jj]\n                Count[j, jj] = np.sum(count[pv])\n',
+     '            cumulative = lambda level: np.sum(count[amp >= level])\n            for jj in range(nbins):\n                Count[j, jj] = cumulative(BinAmps[j, jj])\n',
+     'pass 5: cumulative count through a lambda bound in the loop body'),
+    ("C10", 'neutral', [], FDE, '            for jj in range(nbins):\n                pv = amp >= BinAmps[j, jj]\n                Count[j, jj] = np.sum(count[pv])\n',
+     '            Count[j] = list(map(lambda level: np.sum(count[amp >= level]), BinAmps[j]))\n',
+     'pass 5: cumulative counts of a row through map(lambda)'),
+    ("C10", 'neutral', [], FDE, '            for jj in range(nbins):\n                pv = amp >= BinAmps[j, jj]\n                Count[j, jj] = np.sum(count[pv])\n',
+     '            Count[j] = [count[amp >= level].sum() for level in BinAmps[j].tolist()]\n',
+     "pass 5: cumulative counts of a row over the row's .tolist()"),
+]
